@@ -50,6 +50,8 @@ import (
 	"github.com/trustbloc/sidetree-go/pkg/vdr/sidetreelongform/sidetree/option/deactivate"
 	"github.com/trustbloc/sidetree-go/pkg/vdr/sidetreelongform/sidetree/option/recovery"
 	"github.com/trustbloc/sidetree-go/pkg/vdr/sidetreelongform/sidetree/option/update"
+	"github.com/trustbloc/sidetree-go/pkg/patch"
+	"github.com/trustbloc/sidetree-go/pkg/versions/1_0/client"
 	opmodel "github.com/trustbloc/sidetree-go/pkg/versions/1_0/model"
 	"github.com/trustbloc/sidetree-go/pkg/versions/1_0/operationparser"
 )
@@ -101,6 +103,14 @@ func lcNewKey(r *rand.Rand, kind string) *lcSigner {
 }
 
 func lcCommit(s *lcSigner) string { return lcCommitWith(s, 18) }
+
+func lcReveal(s *lcSigner) string {
+	rv, err := commitment.GetRevealValue(s.pub, 18)
+	if err != nil {
+		panic(err)
+	}
+	return rv
+}
 
 func lcCommitWith(s *lcSigner, code uint) string {
 	c, err := commitment.GetCommitment(s.pub, code)
@@ -329,6 +339,10 @@ func TestVerifBoundedLifecycle(t *testing.T) {
 		}
 		suffix := parts[2]
 		did := lcNS + ":" + suffix
+		if run%4 == 1 {
+			// a DID with a further namespace segment: the client still has to address the same suffix
+			did = lcNS + ":testnet:" + suffix
+		}
 		if !lcCheck("create", node, suffix, keys, svcs, aka, lcCommit(u0), lcCommit(r0), false) {
 			return
 		}
@@ -380,6 +394,33 @@ func TestVerifBoundedLifecycle(t *testing.T) {
 		if node.sent != sentBefore || node.fail != "" {
 			lcFail("refuse.sent", "a refused request reached the node (%s)", node.fail)
 			return
+		}
+		// ---- anchor origins that are not strings reach the parsed operation unchanged (builders directly)
+		for _, ao := range []interface{}{[]interface{}{"origin.one", "origin.two"}, map[string]interface{}{"o": "x"}, "plain"} {
+			pt, _ := patch.NewAddServiceEndpointsPatch(`[{"id":"sv","type":"t","serviceEndpoint":"https://e.example"}]`)
+			creq, err := client.NewCreateRequest(&client.CreateRequestInfo{Patches: []patch.Patch{pt}, RecoveryCommitment: lcCommit(r0), UpdateCommitment: lcCommit(u0), AnchorOrigin: ao, MultihashCode: 18})
+			cases++
+			if err != nil {
+				lcFail("builder.create", "anchor origin %v: %v", ao, err)
+				return
+			}
+			cop, err := node.opp.Parse(lcNS, creq)
+			if err != nil || !reflect.DeepEqual(cop.AnchorOrigin, ao) {
+				lcFail("builder.anchor-origin", "create request built with anchor origin %v is parsed with anchor origin %v (err %v)", ao, cop, err)
+				return
+			}
+			rreq, err := client.NewRecoverRequest(&client.RecoverRequestInfo{DidSuffix: suffix, RecoveryKey: r0.pub, Patches: []patch.Patch{pt}, RecoveryCommitment: lcCommit(r1),
+				UpdateCommitment: lcCommit(u3), AnchorOrigin: ao, MultihashCode: 18, Signer: r0, RevealValue: lcReveal(r0)})
+			cases++
+			if err != nil {
+				lcFail("builder.recover", "anchor origin %v: %v", ao, err)
+				return
+			}
+			rop, err := node.opp.Parse(lcNS, rreq)
+			if err != nil || !reflect.DeepEqual(rop.AnchorOrigin, ao) {
+				lcFail("builder.anchor-origin", "recover request built with anchor origin %v is parsed with another one (err %v)", ao, err)
+				return
+			}
 		}
 		// ---- recover: whole new document
 		ropts := []recovery.Option{recovery.WithSigner(r0), recovery.WithNextRecoveryPublicKey(r1.key), recovery.WithNextUpdatePublicKey(u3.key), recovery.WithOperationCommitment(lcCommit(r0)),
